@@ -88,8 +88,10 @@ class Reader:
         if fold in self.begin_kw:
             return "begin"
         if fold in BEGIN_KW:
-            # BEGIN_ forms under the ISIS grammar: not settled
-            raise Ambiguous("BEGIN_ keyword under the ISIS grammar")
+            # BEGIN_ forms under the ISIS grammar: ISISGrammar keeps them in its
+            # reserved words (so they are no names or values) and, as its
+            # documentation says, does not recognise them as the start of a block
+            return "reserved"
         if fold in END_KW:
             return "endkw"
         if fold in VALUE_KW:
